@@ -434,3 +434,48 @@ def _(v):
             and abs(float(CU.to_unitless(CU.get_derived_unit(reg, "concentration"), u.molar)) - 1) < 1e-12, detail="%r %r %r" % (first, second, du))
     other = dict(SI_base_registry, time=u.minute)
     v.prove("another_registry_alive_at_the_same_time", abs(float(CU.unitless_in_registry(2 / u.second, other)) - 120.0) < 1e-9 and abs(float(CU.unitless_in_registry(2 / u.second, reg)) - 2.0) < 1e-12)
+
+
+@harness("C09", "bare_units_and_exact_registry_round_trip", functions=[U + ":Backend.__getattr__", U + ":unit_registry_to_human_readable", U + ":unit_registry_from_human_readable"], kind="data")
+def _(v):
+    """(a) an argument that carries a unit without being a number-times-unit product (a bare unit object such as metre or percent, an object
+    array holding quantities) is made unitless by the Backend wrapper like any other quantity: refused when dimensional, converted with the exact
+    unit ratio when a scaled pure number; (b) the human-readable round trip of a registry reproduces every unit with ratio exactly one, also for
+    scale factors that need all 17 significant digits (1/3 nm, 1/60 s, 1/N_A mol)"""
+    import math
+    import numpy as np
+    from chempy import units as CU
+    from chempy.units import default_units as u
+    be = CU.Backend("math")
+    out = []
+    for arg in (u.metre, u.second, 3 * u.metre):
+        try:
+            out.append(("returned", be.exp(arg)))
+        except Exception:
+            out.append("refused")
+    v.prove("dimensional_bare_unit_refused", out == ["refused"] * 3, detail=repr(out))
+    try:
+        got = (be.exp(u.percent), be.exp(1 * u.percent), be.log10(u.km / u.m))
+        ok, det = abs(got[0] - math.exp(0.01)) < 1e-15 and got[0] == got[1] and abs(got[2] - 3) < 1e-12, repr(got)
+    except Exception as ex:
+        ok, det = False, repr(ex)
+    v.prove("scaled_pure_number_unit_converted", ok, detail=det)
+    nbe = CU.Backend("numpy")
+    try:
+        arr = nbe.exp(np.array([1 * u.percent, 200 * u.percent], dtype=object))
+        ok, det = np.allclose(np.asarray(arr, dtype=float), [math.exp(0.01), math.exp(2.0)], rtol=1e-14), repr(arr)
+    except Exception as ex:
+        ok, det = False, repr(ex)
+    v.prove("object_array_of_quantities_converted", ok, detail=det)
+    try:
+        nbe.exp(np.array([1 * u.metre, 2 * u.metre], dtype=object))
+        ok = False
+    except Exception:
+        ok = True
+    v.prove("object_array_of_dimensional_quantities_refused", ok)
+    reg = dict(CU.SI_base_registry, length=(1 / 3.0) * u.nanometre, time=(1 / 60.0) * u.second, amount=(1 / 6.02214076e23) * u.mole, mass=0.1 * 3 * u.gram)
+    back = CU.unit_registry_from_human_readable(CU.unit_registry_to_human_readable(reg))
+    ratios = {k: float(CU.to_unitless(reg[k], back[k])) for k in reg}
+    v.prove("round_trip_ratio_exactly_one", set(back) == set(reg) and all(r == 1.0 for r in ratios.values()), detail=repr(ratios))
+    q = 7 * u.nanometre / u.second
+    v.prove("round_trip_same_magnitudes", float(CU.unitless_in_registry(q, reg)) == float(CU.unitless_in_registry(q, back)))
